@@ -45,6 +45,12 @@ LEVEL_TEXT += (
     "points) for meshes of one to three cells - all vertex numberings, "
     "cell orientations and cell orders; points of the interval get a "
     "containing cell, points outside raise, alone or in a batch.")
+LEVEL_TEXT += (
+    " Added in the hunting round (defects found by independent agents "
+    "on the unchanged tree, DESIGN.md 9.4 / 9.6): "
+    "the located cells index the mesh-wide DOF table; finder closures "
+    "work on float copies of the query; the interpolator keeps "
+    "component axes for points with trailing axes.")
 LEVEL_NOTE = ("Trusted: numpy argmax/max/all/tile/flatten; scipy cKDTree "
               "returns candidate cells; gbasis value layout (components..., "
               "cell, point).")
